@@ -24,7 +24,7 @@ def plans(ctx):
             R.Plan("t1b", "S_t1b", emit_mod=10, max_inst=1, max_pw=2),
             R.Plan("notimer", "S_q1", emit_mod=10, max_inst=1, max_pw=2, timeout_on=False),
             R.Plan("noxq", "S_noxq", emit_mod=3, max_inst=3, max_pw=2, stray=2, junk=True),
-            R.Plan("unk", "S_unk", emit_mod=25, max_inst=1, max_pw=2, stray=1),
+            R.Plan("unk", "S_unk", emit_mod=75, max_inst=1, max_pw=2, stray=1),
             R.Plan("drone", "S_drone", emit_mod=2, max_inst=2, max_pw=2, stray=1),
             R.Plan("pref", "S_pref", emit_mod=25, max_inst=1, max_pw=2, stray=1),
             R.Plan("sim", "S_t1c", simulate="num=60", depth=50, workers=8, rich=True, max_inst=8, max_pw=4, stray=1)]
